@@ -82,6 +82,7 @@ Section Challenge.
   Definition dv_str (dv : pyval) : res pyval :=
     match dv with
     | PDigest s d _ => Ok (PStr (b64enc s ++ colon :: b64enc d))
+    | PNone => Ok (PStr (sa "None"))
     | _ => Unmodelled
     end.
   Definition dv_parse (a : N) (s : str) : res pyval :=
